@@ -83,7 +83,7 @@ CLAIMS = {
            'clamp(C exp(-lr (noisy_count/sample_size - gamma)), [min,max]); it depends on the raw count only through the noisy count; sigma_g^-2 + (2 sigma_b)^-2 = sigma^-2. '
            'add_noise / clip_and_accumulate counters / zero_grad and the ghost adaptive engine\'s rule are pinned or regenerated into the optimizer state machine (counters survive skipped '
            'physical steps, no update on skipped steps). Real AdaClipDPOptimizer steps with recorded torch.normal draws are compared with the rule, and so are steps of the real ghost adaptive engine (PrivacyEngineAdaptiveClipping) '
-           'on loaders with a ragged last batch: count-noise std = realised batch/20, gradient multiplier for the sigma_b actually used, noise std = multiplier x updated norm. The accounting half is FALSE of the code at both sites '
+           'on loaders with a ragged last batch: count-noise std = realised batch/20, gradient multiplier for the sigma_b actually used, noise std = multiplier x updated norm. The order of the engine\'s backward (norms read, bound and multiplier updated, module and optimizer given the new bound, THEN coefficients and the second pass with hooks off) is a theorem about the statement list generated from the source (C20_ghost_adaptive_backward_order). The accounting half is FALSE of the code at both sites '
            '(theorem C20_sigma_g_exceeds_nominal, Findings/C20.v): the accountant is charged sigma_g > sigma -- recorded as a known finding. The privacy reading of the identity (Andrew et al. 2021) is cited.'),
  },
  'C07': {
